@@ -11,7 +11,7 @@ from props import c04
 logging.disable(logging.CRITICAL)      # the server logs every generic abort with a traceback
 
 ID = "C02"
-PROOF_MODULES = ["CanopenProofs.C02"]
+PROOF_MODULES = ["CanopenProofs.C02", "CanopenProofs.C02Styles"]
 GENERATED = ["Datatypes", "SdoConst"]
 THEOREMS = [
     "Canopen.C02.one_response",
@@ -19,6 +19,13 @@ THEOREMS = [
     "Canopen.C02.upload_exact",
     "Canopen.C02.download_exact",
     "Canopen.C02.history_safe",
+    "Canopen.C02.upload_exact_styles",
+    "Canopen.C02.download_exact_styles",
+    "Canopen.C02.unsized_expedited_stores_four",
+    "Canopen.C02.download_then_upload_styles",
+    "Canopen.C02.inert_frame_keeps_node",
+    "Canopen.C02.download_leaves_others",
+    "Canopen.C02.stored_value_survives",
 ]
 FINGERPRINT = [
     "canopen.sdo.server:SdoServer.on_request",
@@ -46,9 +53,15 @@ TRUSTED = c04.TRUSTED + [
 ASSUMPTIONS = ["index 0x1017 (heartbeat time, NmtSlave.on_write) is outside the model and never generated",
                "frames are 1..8 bytes as the property states (a zero-length frame raises; stated in the model)"]
 RULE = ("ops srv (a whole request history on a freshly created node), up / down (strict reference client, "
-        "optionally after a junk pre-history); ODs generated with variables, records and arrays over all data "
-        "types, access types and the 16 present/absent source patterns; value lengths 0..64 (thorough 0..1100); "
-        "non-trivial = at least one non-abort response / result ok")
+        "optionally after a junk pre-history), ups / downs (the same client in every style CiA 301 leaves it: "
+        "downloads initiated 0x23|n<<2, 0x22 (size not indicated: the four data bytes are the value), 0x21, 0x20, "
+        "any segmentation, arbitrary values in the unused command bits and in reserved / no-data bytes of every "
+        "request; after the download stray / duplicated segments and other frames that complete no transfer, then "
+        "what the node holds, a read-back and uploads of other entries of the same dictionary), every style against "
+        "every data type on every run; the strict client rejects a segment that delivers the last announced byte "
+        "without the last-segment flag; ODs generated with variables, records and "
+        "arrays over all data types, access types and the 16 present/absent source patterns; value lengths 0..64 "
+        "(thorough 0..1100); non-trivial = at least one non-abort response / result ok")
 
 ACCESS = {0: "rw", 1: "ro", 2: "wo", 3: "const", 4: "rwr", 5: "rww"}
 NUMBER_W = {**{t: w for t, (w, _) in c04.SPEC.items()}, 0x08: 32, 0x11: 64}
@@ -262,8 +275,14 @@ def as_abort(r, idx, sub):
     return None
 
 
-def ref_upload(rig, idx, sub):
-    r = one(rig.request(bytes([0x40]) + mux(idx, sub) + bytes(4)))
+def fill_n(fill, k):
+    """what the styled client writes into k bytes the server has to ignore"""
+    return bytes(fill[:k]).ljust(k, b"\0")
+
+
+def ref_upload(rig, idx, sub, bits=0, fill=b""):
+    """strict upload; `bits` go to the unused bits of the request command bytes, `fill` to the reserved bytes"""
+    r = one(rig.request(bytes([0x40 + bits % 32]) + mux(idx, sub) + fill_n(fill, 4)))
     if r is None:
         return "protocol"
     a = as_abort(r, idx, sub)
@@ -288,7 +307,7 @@ def ref_upload(rig, idx, sub):
     size = int.from_bytes(r[4:8], "little")
     acc, t = b"", 0
     for _ in range(size // 7 + 2):
-        r = one(rig.request(bytes([0x60 | t]) + bytes(7)))
+        r = one(rig.request(bytes([0x60 + t + bits % 16]) + fill_n(fill, 7)))
         if r is None:
             return "protocol"
         a = as_abort(r, idx, sub)
@@ -306,6 +325,8 @@ def ref_upload(rig, idx, sub):
             return "ok " + c04.hx(acc) if len(acc) == size else "protocol"
         if not seg:
             return "protocol"
+        if len(acc) >= size:
+            return "protocol"        # data exhausted, yet the segment is not flagged as the last one
         t ^= 0x10
     return "protocol"
 
@@ -346,6 +367,74 @@ def ref_download(rig, idx, sub, data, expedited, chunks):
     return "protocol"
 
 
+STYLES = "EUSN"     # expedited with size / expedited without (0x22) / segmented with size / without (0x20)
+
+
+def eff_style(style, n):
+    """the style that can carry n bytes: E needs 1..4, U exactly 4 (the four data bytes ARE the value)"""
+    if style == "E" and not 1 <= n <= 4:
+        return "S"
+    if style == "U" and n != 4:
+        return "N"
+    return style
+
+
+def init_download_frame(style, idx, sub, data, bits=0, fill=b""):
+    xn, x = bits % 32 // 4 * 4, bits % 32 // 16 * 16
+    if style == "E":
+        return bytes([0x23 + (4 - len(data)) * 4 + x]) + mux(idx, sub) + data + fill_n(fill, 4 - len(data))
+    if style == "U":
+        return bytes([0x22 + xn]) + mux(idx, sub) + data
+    if style == "S":
+        return bytes([0x21 + xn]) + mux(idx, sub) + len(data).to_bytes(4, "little")
+    return bytes([0x20 + xn]) + mux(idx, sub) + fill_n(fill, 4)
+
+
+def ref_download_s(rig, idx, sub, data, style, chunks, bits=0, fill=b""):
+    """strict download in one of the four client styles of CiA 301 (own reading, not the model's)"""
+    style = eff_style(style, len(data))
+    r = one(rig.request(init_download_frame(style, idx, sub, data, bits, fill)))
+    if r is None:
+        return "protocol"
+    a = as_abort(r, idx, sub)
+    if a:
+        return a
+    if r != bytes([0x60]) + mux(idx, sub) + bytes(4):
+        return "protocol"
+    if style in "EU":
+        return "ok -"
+    rem, t = data, 0
+    for k in list(chunks) + [7] * (len(data) + 1):
+        k = min(max(k, 1), 7)
+        chunk, rest = rem[:k], rem[k:]
+        last = not rest
+        r = one(rig.request(bytes([t | (7 - len(chunk)) << 1 | int(last)]) + chunk + fill_n(fill, 7 - len(chunk))))
+        if r is None:
+            return "protocol"
+        a = as_abort(r, idx, sub)
+        if a:
+            return a
+        if r != bytes([0x20 | t]) + bytes(7):
+            return "protocol"
+        if last:
+            return "ok -"
+        rem, t = rest, t ^ 0x10
+    return "protocol"
+
+
+def parse_addrs(s):
+    return [] if s == "-" else [tuple(int(x) for x in e.split(".")) for e in s.split(",")]
+
+
+def may_write(f):
+    """a request frame that completes a transfer of a value to the node: a download segment flagged as the last
+    one, or an expedited initiate download; nothing else may change what the node holds"""
+    if not f:
+        return False
+    c = f[0]
+    return (c & 0xE0 == 0x00 and c & 1 != 0) or (c & 0xE0 == 0x20 and c & 2 != 0)
+
+
 def frames_of(s):
     return [] if s == "-" else [c04.unhx(f) for f in s.split(",")]
 
@@ -379,6 +468,20 @@ def run_impl(op):
             return ref_upload(rig, idx, sub) + " ; " + ref_upload(rig, idx, sub)
         finally:
             MUTABLE_VALUES = False
+    if a[0] == "ups":
+        return ref_upload(rig, idx, sub, int(a[6]), c04.unhx(a[7]))
+    if a[0] == "downs":
+        data, bits, fill = c04.unhx(a[6]), int(a[9]), c04.unhx(a[10])
+        if a[7] not in STYLES:
+            return "bad-op"
+        x = ref_download_s(rig, idx, sub, data, a[7], c04.unnl(a[8]), bits, fill)
+        for f in frames_of(a[11]):
+            rig.request(f)
+        st, lg = rig.store_view(), rig.log_view()
+        y = ref_upload(rig, idx, sub, bits, fill)
+        also = "-" if a[12] == "-" else ";".join(
+            f"{i}.{j}={ref_upload(rig, i, j, bits, fill)}" for i, j in parse_addrs(a[12]))
+        return f"{x} | store: {st} | log: {lg} | readback: {y} | also: {also} | log2: {rig.log_view()}"
     if a[0] == "down":
         data = c04.unhx(a[6])
         x = ref_download(rig, idx, sub, data, a[7] == "1", c04.unnl(a[8]))
@@ -505,7 +608,7 @@ def oracle(op, out):
             return w
         w = oracle(" ".join(["up"] + a[1:]), second)
         return ("second " + w) if w else None
-    if a[0] == "up":
+    if a[0] in ("up", "ups"):
         if out == "protocol":
             return "the strict reference client rejected a response during upload"
         if has_download(pre):
@@ -514,7 +617,7 @@ def oracle(op, out):
         if exp is not None and out != exp:
             return f"upload gave {out}, the entry's value is {exp}"
         return None
-    if a[0] == "down":
+    if a[0] in ("down", "downs"):
         data = c04.unhx(a[6])
         parts = dict(p.split(": ", 1) if ": " in p else ("result", p) for p in out.split(" | "))
         res = parts["result"]
@@ -529,14 +632,22 @@ def oracle(op, out):
             exp = f"abort {0x06070010}"
         else:
             exp = "ok -"
+        if a[0] == "downs" and exp == f"abort {0x06070010}" and res == "ok -":
+            # whether a fixed-size entry takes a payload of another length is C06's question; what C02 demands of
+            # a download the server *confirmed* is that exactly the transferred bytes are stored
+            exp = "ok -"
         if res != exp:
             return f"download gave {res}, expected {exp}"
         if has_download(pre):
             return None
+        if a[0] == "downs" and any(may_write(f) for f in frames_of(a[11])):
+            return None        # another transfer was completed after ours: the store is no longer ours to predict
         key = f"{idx}.{sub}={c04.hx(data)}"
         if exp == "ok -":
             if parts["store"] != key or parts["log"] != key:
-                return f"accepted download stored {parts['store']} / told callbacks {parts['log']}, expected {key}"
+                how = f" (client style {eff_style(a[7], len(data))})" if a[0] == "downs" else ""
+                return (f"accepted download{how} stored {parts['store']} / told callbacks {parts['log']}, "
+                        f"expected {key}")
             rb = expected_upload(entries, cb, idx, sub, stored=data)
             if rb is not None and parts["readback"] != rb:
                 return f"read-back gave {parts['readback']}, expected {rb}"
@@ -545,6 +656,16 @@ def oracle(op, out):
                 return f"refused write changed the node: store {parts['store']}, callbacks {parts['log']}"
         if parts["log2"] != parts["log"]:
             return "an upload invoked write callbacks"
+        if a[0] == "downs" and a[12] != "-":
+            # every other entry still serves its own value (other sub-indices of the same index included)
+            got = dict(e.split("=", 1) for e in parts["also"].split(";"))
+            for i, j in parse_addrs(a[12]):
+                g = got.get(f"{i}.{j}")
+                if g == "protocol":
+                    return f"the strict reference client rejected a response while uploading {i}.{j} afterwards"
+                e = expected_upload(entries, cb, i, j, stored=data if exp == "ok -" and (i, j) == (idx, sub) else None)
+                if e is not None and g != e:
+                    return f"after the download to {idx}.{sub}, upload of {i}.{j} gave {g}, its value is {e}"
     return None
 
 
@@ -569,6 +690,8 @@ def classify(op, out):
     a = op.split(" ")
     if a[0] == "srv":
         return "srv"
+    if a[0] == "downs":
+        return f"downs/{eff_style(a[7], len(c04.unhx(a[6])))}:{out.split(' ')[0]}"
     return f"{a[0]}:{out.split(' ')[0]}"
 
 
@@ -585,6 +708,21 @@ def shrink_candidates(op):
             yield " ".join([a[0], od_token(entries[:i] + entries[i + 1:])] + a[2:])
     if a[2] != "-":
         yield " ".join(a[:2] + ["-"] + a[3:])
+    if a[0] in ("ups", "downs"):
+        if a[3] != "-":
+            yield " ".join(a[:3] + ["-"] + a[4:])
+        b, f = (6, 7) if a[0] == "ups" else (9, 10)
+        if a[b] != "0":
+            yield " ".join(a[:b] + ["0"] + a[b + 1:])
+        if a[f] != "-":
+            yield " ".join(a[:f] + ["-"] + a[f + 1:])
+    if a[0] == "downs":
+        if a[8] != "7":
+            yield " ".join(a[:8] + ["7"] + a[9:])
+        for k in (11, 12):
+            xs = [] if a[k] == "-" else a[k].split(",")
+            for i in range(len(xs)):
+                yield " ".join(a[:k] + [",".join(xs[:i] + xs[i + 1:]) or "-"] + a[k + 1:])
 
 
 # ---------------------------------------------------------------------- generators
@@ -625,7 +763,7 @@ def rand_vd(rng, maxlen, t=None, access=None):
 def rand_od(rng, maxlen, n=None):
     idxs = rng.sample(INDEX_POOL + [rng.randrange(1, 0x10000) for _ in range(4)], n or rng.randint(2, 6))
     entries = []
-    for idx in idxs:
+    for idx in dict.fromkeys(idxs):      # an index is defined once (a random one may coincide with one of the pool)
         if idx == 0x1017 or 0x1400 <= idx < 0x1C00:      # heartbeat time / PDO parameters: other models
             continue
         kind = rng.choice("vvra")
@@ -662,6 +800,56 @@ def rand_cb(entries, rng, maxlen):
     return cb
 
 
+def rand_rsv(rng):
+    """what a client writes where the server has to ignore it: (command bits, fill bytes); plain zeros half the time"""
+    if rng.random() < 0.5:
+        return 0, b""
+    return rng.randrange(32), bytes(rng.getrandbits(8) for _ in range(rng.choice([1, 4, 7, 7])))
+
+
+def rand_post(rng, entries=()):
+    """frames arriving after a completed download that do not complete another one: stray / duplicated download
+    segments with either toggle (no last flag), upload traffic, a segmented initiate, a client abort, junk; now and
+    then (1 in 8) any junk at all — the oracle then only judges the responses"""
+    r = rng.random()
+    if r < 0.35:
+        return []
+    if r < 0.475:
+        return [junk_frame(rng) for _ in range(rng.randint(1, 3))]
+    fs = []
+    for _ in range(rng.randint(1, 3)):
+        k = rng.randrange(6)
+        if k <= 2:      # stray segments, both toggles so that one of them is the expected one
+            n = rng.randint(0, 6)
+            body = bytes(rng.getrandbits(8) for _ in range(7))
+            order = [0x00, 0x10] if rng.random() < 0.5 else [0x10, 0x00]
+            fs += [bytes([t | n << 1]) + body for t in order[:rng.choice([1, 2, 2])]]
+        elif k == 3:
+            idx, sub = rng.choice(addresses(entries, rng)) if entries else (0x2000, 0)
+            fs.append(bytes([0x40]) + mux(idx, sub) + bytes(4))
+            fs += [bytes([0x60 | (0x10 if i % 2 else 0)]) + bytes(7) for i in range(rng.randint(0, 3))]
+        elif k == 4:
+            fs.append(bytes([rng.choice([0x21, 0x20])]) + mux(*(rng.choice(addresses(entries, rng)) if entries else (0x2000, 0)))
+                      + rng.randint(0, 20).to_bytes(4, "little"))
+        else:
+            fs.append(rng.choice([bytes([0x80, 0, 0, 0, 0, 0, 4, 5]), bytes([0xE0]) + bytes(7), bytes([0x60]) + bytes(7), b"\x70"]))
+    return [f for f in fs if not may_write(f)]
+
+
+def fr_token(fs):
+    return ",".join(c04.hx(f) for f in fs) if fs else "-"
+
+
+def style_lengths(t, rng, maxlen):
+    """payload lengths worth downloading to an entry of type t in every style: 4 (the only length 0x22 carries),
+    the type's own size, and a few others around the expedited / segment boundaries"""
+    ns = [4]
+    if t in NUMBER_W:
+        ns.append(NUMBER_W[t] // 8)
+    ns.append(rng.choice([0, 1, 2, 3, 5, 6, 7, 8, 13, 14, 15, rng.randint(0, maxlen)]))
+    return list(dict.fromkeys(ns))
+
+
 def junk_frame(rng):
     kind = rng.randrange(6)
     if kind == 0:
@@ -676,19 +864,21 @@ def junk_frame(rng):
 def valid_transfer_frames(entries, rng, maxlen):
     """frames of a by-the-book transfer to a generated address (responses are not needed to build them)"""
     idx, sub = rng.choice(addresses(entries, rng))
+    bits, fill = rand_rsv(rng)
     if rng.random() < 0.5:
         n = rng.randint(0, 12)
-        return [bytes([0x40]) + mux(idx, sub) + bytes(4)] + \
-            [bytes([0x60 | (0x10 if k % 2 else 0)]) + bytes(7) for k in range(n)]
-    data = bytes(rng.getrandbits(8) for _ in range(rng.choice([0, 1, 2, 4, 5, 7, 8, 14, rng.randint(0, maxlen)])))
-    if 1 <= len(data) <= 4 and rng.random() < 0.6:
-        return [bytes([0x23 + (4 - len(data)) * 4]) + mux(idx, sub) + data.ljust(4, b"\0")]
-    fr = [bytes([0x21]) + mux(idx, sub) + len(data).to_bytes(4, "little")]
+        return [bytes([0x40 + bits % 32]) + mux(idx, sub) + fill_n(fill, 4)] + \
+            [bytes([0x60 + (0x10 if k % 2 else 0) + bits % 16]) + fill_n(fill, 7) for k in range(n)]
+    data = bytes(rng.getrandbits(8) for _ in range(rng.choice([0, 1, 2, 4, 4, 5, 7, 8, 14, rng.randint(0, maxlen)])))
+    style = eff_style(rng.choice(STYLES), len(data))      # every client style of an initiate download
+    fr = [init_download_frame(style, idx, sub, data, bits, fill)]
+    if style in "EU":
+        return fr
     rem, t = data, 0
     while True:
         k = rng.randint(1, 7)
         chunk, rem = rem[:k], rem[k:]
-        fr.append(bytes([t | (7 - len(chunk)) << 1 | int(not rem)]) + chunk.ljust(7, b"\0"))
+        fr.append(bytes([t | (7 - len(chunk)) << 1 | int(not rem)]) + chunk + fill_n(fill, 7 - len(chunk)))
         t ^= 0x10
         if not rem:
             return fr
@@ -737,13 +927,46 @@ def gen_ops(tier, rng):
             chunks = rng.choice([[7], [1], [3], [rng.randint(1, 7) for _ in range(10)]])
             yield (f"down {od_token([('r', 0x2000, [(2, (t, 0, None, None))])])} - - 8192 2 {c04.hx(data)} "
                    f"{int(rng.random() < 0.5)} {c04.nl(chunks * 3)}")
+    # every client style against every data type (and an entry without one): downloads of 4 bytes, of the type's own
+    # size and of another length, in an array member / a variable; uploads by a client that fills the reserved places
+    for t in ALL_DT + [None]:
+        for style in STYLES:
+            for n in style_lengths(t, rng, min(maxlen, 40)):
+                data = bytes(rng.getrandbits(8) for _ in range(n))
+                bits, fill = rand_rsv(rng)
+                ent = rng.choice([[("v", 0x2000, (t, 0, None, None))],
+                                  [("a", 0x2000, [(0, (0x05, 1, ("i", 3), None)), (1, (t, rng.choice([0, 2, 5]), None, None))])],
+                                  [("r", 0x2000, [(1, rand_vd(rng, 8, t=t, access=0)), (2, rand_vd(rng, 8, access=0)),
+                                                  (3, rand_vd(rng, 8))]), ("v", 0x2001, rand_vd(rng, 8))]])
+                sub = 0 if ent[0][0] == "v" else 1
+                also = {"v": "8192.0", "a": "8192.0,8192.2", "r": "8192.2,8192.3,8193.0,8192.1"}[ent[0][0]]
+                yield (f"downs {od_token(ent)} - - 8192 {sub} {c04.hx(data)} {style} "
+                       f"{c04.nl([rng.randint(1, 7) for _ in range(6)])} {bits} {c04.hx(fill)} "
+                       f"{fr_token(rand_post(rng, ent))} {also}")
+        for k in range(2 if tier == "quick" else 6):
+            bits, fill = rand_rsv(rng) if k else (rng.randrange(1, 32), bytes(rng.randrange(1, 256) for _ in range(7)))
+            v = rand_value(t if t is not None else 0x0A, rng, min(maxlen, 40))
+            src = rng.randrange(3)
+            vd = (t, rng.choice([0, 1, 3]), v if src == 0 else None, v if src == 1 else None)
+            cbs = cb_token([((0x2000, 0), v)]) if src == 2 else "-"
+            yield f"ups {od_token([('v', 0x2000, vd)])} {cbs} - 8192 0 {bits} {c04.hx(fill)}"
+    for n in ([0, 1, 4, 5, 7, 8, 64] if tier == "quick" else lens):
+        for style in "SN":
+            data = bytes(rng.getrandbits(8) for _ in range(n))
+            bits, fill = rand_rsv(rng)
+            # … each followed by stray segments of both toggles (the buffer the server assembled is not the value)
+            stray = [bytes([t | rng.randint(0, 6) << 1]) + bytes(rng.getrandbits(8) for _ in range(7)) for t in (0x00, 0x10)]
+            yield (f"downs {od_token([('v', 0x2000, (rng.choice([0x0A, 0x0F, None]), 0, None, None))])} - - 8192 0 "
+                   f"{c04.hx(data)} {style} {c04.nl([rng.randint(1, 7) for _ in range(8)])} {bits} {c04.hx(fill)} "
+                   f"{fr_token(stray)} -")
     # generated dictionaries: probe every address, both directions, with and without junk before
     for _ in range(n_od):
         entries = rand_od(rng, min(maxlen, 40))
         ods = od_token(entries)
         cb = rand_cb(entries, rng, 20)
         cbs = cb_token(cb)
-        for (idx, sub) in addresses(entries, rng):
+        addrs = addresses(entries, rng)
+        for (idx, sub) in addrs:
             pre = "-" if rng.random() < 0.6 else ",".join(c04.hx(junk_frame(rng)) for _ in range(rng.randint(1, 3)))
             yield f"up {ods} {cbs if rng.random() < 0.5 else '-'} {pre} {idx} {sub}"
             vd, _ = find_entry(entries, idx, sub)
@@ -756,6 +979,19 @@ def gen_ops(tier, rng):
             chunks = [rng.randint(1, 7) for _ in range(12)]
             yield (f"down {ods} {cbs if rng.random() < 0.3 else '-'} {pre} {idx} {sub} {c04.hx(data)} "
                    f"{int(rng.random() < 0.5)} {c04.nl(chunks)}")
+            if rng.random() < 0.5:
+                # the same address through a client of another style
+                bits, fill = rand_rsv(rng)
+                if rng.random() < 0.4:
+                    data = bytes(rng.getrandbits(8) for _ in range(4))
+                same = [a for a in addrs if a[0] == idx and a != (idx, sub)]
+                also = rng.sample(same, min(len(same), 2)) + rng.sample(addrs, min(len(addrs), 2))
+                yield (f"downs {ods} {cbs if rng.random() < 0.3 else '-'} {pre} {idx} {sub} {c04.hx(data)} "
+                       f"{rng.choice(STYLES)} {c04.nl(chunks[:6])} {bits} {c04.hx(fill)} "
+                       f"{fr_token(rand_post(rng, entries))} {','.join(f'{i}.{j}' for i, j in also) or '-'}")
+            if rng.random() < 0.3:
+                bits, fill = rand_rsv(rng)
+                yield f"ups {ods} {cbs if rng.random() < 0.5 else '-'} {pre} {idx} {sub} {bits} {c04.hx(fill)}"
         for _ in range(3):
             yield f"srv {ods} {cbs if rng.random() < 0.3 else '-'} {','.join(c04.hx(f) for f in history(entries, rng, min(maxlen, 30)))}"
 
@@ -765,13 +1001,34 @@ CORPUS = [
     "srv - - 6000000000000000,40",                   # F5: segment request / short frame on a fresh server
     "up v@8192@10,0,x-,n - - 8192 0",                # F6: empty OCTET_STRING value
     "up v@8192@9,0,n,s - - 8192 0",                  # F6: empty VISIBLE_STRING default
+    # the four client styles of a download (0x23|n<<2, 0x22, 0x21, 0x20) to a string, a DOMAIN and a 32-bit entry
+    "downs v@8192@9,0,n,n - - 8192 0 41424344 U 7 0 - - -",
+    "downs v@8192@15,0,n,n - - 8192 0 11223344 U 7 28 a5a5a5a5a5a5a5 - -",
+    "downs v@8192@7,0,n,n - - 8192 0 11223344 U 7 0 - - -",
+    "downs v@8192@10,0,n,n - - 8192 0 11223344 E 7 16 - - -",
+    "downs v@8192@10,0,n,n - - 8192 0 112233 E 7 0 ffffffff - -",
+    "downs v@8192@10,0,n,n - - 8192 0 1122334455667788 N 3,1,2 28 ffffffffffffff - -",
+    "downs v@8192@10,0,n,n - - 8192 0 1122334455667788 S 3,1,2 28 ffffffffffffff - -",
+    "downs v@8192@10,0,n,n - - 8192 0 - N 7 0 - - -",
+    # a completed segmented download, then stray segments with either toggle: the value stays the ten bytes
+    "downs v@8192@10,0,n,n - - 8192 0 30313233343536373839 S 7 0 - 0058595a00000000,1058595a00000000 -",
+    # a download to one member of a record / array: the other members still serve their defaults
+    "downs r@8448@1=7,0,n,i1|2=7,0,n,i3405691582|3=9,1,n,s102.97.99 - - 8448 1 01000000 E 7 0 - - 8448.2,8448.3,8448.1",
+    "downs a@8448@0=5,1,i2,n|1=6,0,n,i7|2=6,0,i9,n - - 8448 1 0100 S 7 0 - - 8448.0,8448.2,8448.3",
+    "up v@8192@10,0,x30313233343536,n - - 8192 0",           # a value of exactly one full segment: that segment is the last
+    "up v@8192@10,0,x3031323334353637383930313233,n - - 8192 0",
+    "ups v@8192@10,0,x0102030405060708,n - - 8192 0 31 ffffffffffffff",
+    "ups v@8192@7,0,i305419896,n - - 8192 0 31 ffffffffffffff",
 ]
 
 LEVEL_TEXT = ("Lean 4 theorems about the server/local-node model for every request frame and history: exactly one "
               "well-formed 8-byte response with the matching specifier or an abort and nothing raised (any state, any "
               "1..8-byte frame); a strict reference client uploads exactly the bytes of the first present source for "
               "every value length, and every accepted download (expedited or any segmentation) stores exactly the "
-              "payload, tells the write callbacks exactly that, and reads back; tied to the code by differential runs "
+              "payload, tells the write callbacks exactly that, and reads back — for every client style CiA 301 "
+              "allows (initiate 0x23|n<<2, 0x22 = all four data bytes, 0x21, 0x20; anything in unused command bits "
+              "and reserved / no-data bytes); frames that complete no transfer leave the node as it is, so the stored "
+              "value survives stray segments and other entries keep their values; tied to the code by differential runs "
               "of whole request histories and strict-client transfers on generated dictionaries")
 LEVEL_NOTE = ("trusted: Lean kernel + standard axioms; exception plumbing, struct and bytearray slicing are modelled; "
               "the strict client is my reading of CiA 301 (written twice: Lean and Python); ODArray dynamic members "
